@@ -90,7 +90,7 @@ namespace Hannibal
 open AState
 
 /-- the timer task is over (aborted, finished, or seen to end) -/
-def Timer.Dead (x : Timer) : Prop := x.st = .dead ∨ x.st = .ended
+def Timer.Dead (x : Timer) : Prop := x.st = .dead ∨ x.st = .deadHolding ∨ x.st = .ended
 
 def AllDead (s : AState) : Prop := ∀ x ∈ s.timers, x.Dead
 
@@ -100,7 +100,9 @@ theorem allDead_killTimers (s : AState) : AllDead s.killTimers := by
   simp only at hx
   obtain ⟨y, _, rfl⟩ := List.mem_map.mp hx
   unfold Timer.Dead
-  split <;> simp_all
+  split
+  · simp_all
+  · split <;> simp
 
 theorem allDead_fail (s : AState) : AllDead s.fail := by
   intro x hx; exact allDead_killTimers (s.cancelSlots _) x (by simpa [fail] using hx)
@@ -113,7 +115,7 @@ theorem findTimer_mem {s : AState} {t x} (h : s.findTimer t = some x) : x ∈ s.
   exact ⟨List.mem_of_find?_eq_some h, by simpa using List.find?_some h⟩
 
 /-- `setTimer` on a list of dead timers with a dead state keeps all dead -/
-theorem allDead_setTimer {s : AState} (h : AllDead s) (t : Nat) (st : TimerSt) (hst : st = .dead ∨ st = .ended) :
+theorem allDead_setTimer {s : AState} (h : AllDead s) (t : Nat) (st : TimerSt) (hst : st = .dead ∨ st = .deadHolding ∨ st = .ended) :
     AllDead (s.setTimer t st) := by
   intro x hx
   unfold setTimer at hx
@@ -136,13 +138,13 @@ theorem allDead_step {w : Wiring} {s s' : AState} {l : Label} (hs : step w s l =
       | some x =>
         have hd := h x (findTimer_mem hf).1
         simp only [hf] at hs
-        rcases hd with hd | hd <;> simp [hd] at hs <;> (split at hs <;> simp at hs)
+        rcases hd with hd | hd | hd <;> simp [hd] at hs <;> (split at hs <;> simp at hs)
     case timerEnd t =>
       simp only [step, stepTimerEnd] at hs
       (repeat' (split at hs)) <;>
         (first
           | (simp at hs; done)
-          | (simp at hs; subst hs; exact allDead_setTimer h _ _ (.inr rfl)))
+          | (simp at hs; subst hs; exact allDead_setTimer h _ _ (.inr (.inr rfl))))
     case fire t m =>
       simp only [step, stepFire] at hs
       cases hf : s.findTimer t with
@@ -150,7 +152,7 @@ theorem allDead_step {w : Wiring} {s s' : AState} {l : Label} (hs : step w s l =
       | some x =>
         have hd := h x (findTimer_mem hf).1
         simp only [hf, timerDue] at hs
-        rcases hd with hd | hd <;> simp [hd] at hs
+        rcases hd with hd | hd | hd <;> simp [hd] at hs
     case cbEnd cb ok =>
       have hcb : cb = .stopped := by cases cb <;> simp_all [Label.touchesTimers]
       subst hcb
@@ -216,7 +218,7 @@ theorem dead_mono {w : Wiring} {s s' : AState} {l : Label} (hs : step w s l = so
       by_cases hte : t = t0
       · subst hte
         simp only [hx] at hs
-        rcases hd with hd | hd <;> simp [hd] at hs <;> (split at hs <;> simp at hs)
+        rcases hd with hd | hd | hd <;> simp [hd] at hs <;> (split at hs <;> simp at hs)
       · (repeat' (split at hs)) <;>
           (first
             | (simp at hs; done)
@@ -236,7 +238,7 @@ theorem dead_mono {w : Wiring} {s s' : AState} {l : Label} (hs : step w s l = so
             | (simp at hs; done)
             | (simp at hs; subst hs
                rw [findTimer_setTimer_eq hx] at hx'
-               simp at hx'; subst hx'; exact .inr rfl))
+               simp at hx'; subst hx'; exact .inr (.inr rfl)))
       · (repeat' (split at hs)) <;>
           (first
             | (simp at hs; done)
@@ -248,7 +250,7 @@ theorem dead_mono {w : Wiring} {s s' : AState} {l : Label} (hs : step w s l = so
       by_cases hte : t = t0
       · subst hte
         simp only [hx, timerDue] at hs
-        rcases hd with hd | hd <;> simp [hd] at hs
+        rcases hd with hd | hd | hd <;> simp [hd] at hs
       · (repeat' (split at hs)) <;>
           (first
             | (simp at hs; done)
@@ -317,7 +319,9 @@ def AState.timerIds (s : AState) : List Nat := s.timers.map (·.id)
 @[simp] theorem killTimers_ids (s : AState) : s.killTimers.timerIds = s.timerIds := by
   unfold timerIds killTimers
   simp only [List.map_map]
-  congr 1; funext x; simp only [Function.comp]; split <;> rfl
+  congr 1; funext x; simp only [Function.comp]; split
+  · rfl
+  · split <;> rfl
 
 @[simp] theorem push_ids (s : AState) (pl path tok) : (s.push pl path tok).timerIds = s.timerIds := rfl
 @[simp] theorem cancelSlots_ids (s : AState) (l) : (s.cancelSlots l).timerIds = s.timerIds := rfl
